@@ -38,7 +38,8 @@ def cases(draw):
          "style": draw(st.sampled_from(["tuple", "pair", "linear"])),
          "mstyle": draw(st.sampled_from(["absolute", "relative"])),
          "mfn": draw(st.sampled_from(["sum", "sum", "max", "first", "count", "spread"])),
-         "step": draw(st.integers(1, 5))}
+         "step": draw(st.integers(1, 5)),
+         "fmts": [draw(st.sampled_from(["C", "C", "C", "U"])) for _ in range(4)]}
     if kind == "split_flatten":
         c["depth"] = draw(st.integers(0, d - 1))
     shape = [draw(st.integers(1, 4)) for _ in range(d)]
@@ -127,6 +128,11 @@ def check(case, rec):
     auth = spec.get("auth", True)
     t = build.build_tensor(spec, case["how"])
     ids = list(spec["rank_ids"])
+    # rank formats are configuration: a rank declared uncompressed is walked densely by default iteration, which
+    # must not change what a transform does with the stored content
+    for i, fm in enumerate(case.get("fmts", [])[:d]):
+        if fm == "U":
+            t.setFormat(ids[i], "U")
     cont = model.content(spec)
     snap0, ranks0 = observe.snap(t.getRoot()), observe.rank_lists(t)
     kind, depth = case["kind"], case["depth"]
@@ -303,6 +309,7 @@ def check(case, rec):
     rec.cls("noisy", noisy)
     rec.cls("estimated-shape", not auth)
     rec.cls("empty-tensor", not cont)
+    rec.cls("has-U-rank", "U" in case.get("fmts", [])[:d])
     rec.cls("multi-digit-coordinates", any(c >= 10 for p in cont for c in p) and any(c < 10 for p in cont for c in p))
     rec.cls(f"depth{d}")
     rec.cls("transform-below-top", tdepth > 0)
@@ -360,5 +367,16 @@ def _pin_p38():
                                    f"sum 2 (= the default) was dropped")
 
 
-PINNED = {"P21-unflatten-estimated-shape": _pin_p21, "P22-merge-pads-with-default": _pin_p22,
+def _pin_p39():
+    t = Tensor(rank_ids=["M", "K", "N"], shape=[2, 1, 2])
+    for p, v in {(0, 0, 1): -1, (1, 0, 0): 1}.items():
+        t.getPayloadRef(*p).__ilshift__(v)
+    for r in ("K", "N"):
+        t.setFormat(r, "U")
+    got = observe.tensor_content(t.mergeRanks(depth=0, levels=1, coord_style="absolute", merge_fn=lambda ps: max(ps)))
+    want = {(0, 1): -1, (0, 0): 1}
+    return None if got == want else f"mergeRanks(absolute, max) with ranks K, N declared uncompressed gives {got}, expected {want}"
+
+
+PINNED = {"P39-merge-pads-uncompressed-ranks": _pin_p39, "P21-unflatten-estimated-shape": _pin_p21, "P22-merge-pads-with-default": _pin_p22,
           "P35-flatten-default-from-empty-lower": _pin_p35, "P38-multilevel-merge-drops-default-valued-partial": _pin_p38}
